@@ -13,6 +13,13 @@ READER_SCENARIOS = ["get-last-vs-rem-first", "get-last-vs-rem-mid", "get-mid-vs-
 
 
 def conc_part(res):
+    import random
+    from . import seq
+    rs = random.Random(res.seed + 19)
+    scripts = [("pub%d" % i, seq.gen_script(random.Random(rs.getrandbits(40)), res.tier, scans=False, dumps=False))
+               for i in range(6 if res.tier == "quick" else 40)]
+    scripts += seq.gen_split_boundary_scripts(rs, res.tier)[:10]
+    seq.scripts_phase(res, "c19", scripts, ["res"], "publication_order_scripts")
     conc.conc_phase(res, "c19", ("lin", "null", "deadlock", "coherent"), READER_SCENARIOS, (), False, 1600, ("preempt1",), 1,
                     gen=conc.catalogue_gen, label="reader_vs_reordering")
     if res.tier != "quick":
@@ -34,6 +41,9 @@ def run(tier, seed):
 
 def replay(path, tier, seed):
     r = json.load(open(path))
+    if str(r.get("kind", "")).startswith("seq-"):
+        from . import seq
+        return seq.replay_seq("C19", "c19", path, ["res"])
     if str(r.get("kind", "")).startswith("conc-"):
         print(json.dumps(r, indent=1)[:3000])
         return 1
